@@ -167,8 +167,21 @@ def make_harness(model: SrcModel, chooser, env, order: str):
         text = args[0] if args else kwargs.get("expression")
         if not isinstance(text, str):
             raise Unsupported(f"resolver called with {text!r}")
-        rp = kwargs.get("resolve_packages", args[1] if len(args) > 1 else False)
-        rt = kwargs.get("replace_time_conditions", args[2] if len(args) > 2 else True)
+        # flags that are not passed take the defaults of the function as it is written today
+        import ast as _ast
+
+        sig_defaults = {}
+        fn_node = getattr(getattr(func, "fn", None), "node", None)
+        if fn_node is not None:
+            pos = [*fn_node.args.posonlyargs, *fn_node.args.args]
+            for p_, d_ in zip(pos[len(pos) - len(fn_node.args.defaults):], fn_node.args.defaults):
+                if isinstance(d_, _ast.Constant):
+                    sig_defaults[p_.arg] = d_.value
+            for p_, d_ in zip(fn_node.args.kwonlyargs, fn_node.args.kw_defaults):
+                if isinstance(d_, _ast.Constant):
+                    sig_defaults[p_.arg] = d_.value
+        rp = kwargs.get("resolve_packages", args[1] if len(args) > 1 else sig_defaults.get("resolve_packages", False))
+        rt = kwargs.get("replace_time_conditions", args[2] if len(args) > 2 else sig_defaults.get("replace_time_conditions", True))
         if rp is not True or rt is not True:
             it.effects.append(("resolver-flags", f"resolve_packages={rp!r}, replace_time_conditions={rt!r} for {text!r}"))
         try:
